@@ -40,6 +40,7 @@ func (e *Exec) fieldAddr(obj string, structT types.Type, i int) *Addr {
 		return &Addr{Sub: app(sym(fn), obj), Ty: fty}
 	}
 	e.regHeap(name, "(Array Int "+fty.Sort()+")")
+	e.heapGoTy[name] = f.Type()
 	e.ensureSortDecl(fty)
 	return &Addr{Heap: name, Obj: obj, Ty: fty}
 }
